@@ -17,7 +17,26 @@ impl SerdeParser {
 
         for attr in attrs {
             if attr.path().is_ident("serde") {
-                if let Ok(tokens) = syn::parse2::<syn::MetaList>(attr.meta.to_token_stream()) {
+                // Walk the attribute's own key/value structure; text inside string
+                // values (aliases, default function names, docs) is never a key
+                let mut rename_all = None;
+                let parsed = attr.parse_nested_meta(|meta| {
+                    if meta.path.is_ident("rename_all") && meta.input.peek(syn::Token![=]) {
+                        let value: syn::LitStr = meta.value()?.parse()?;
+                        rename_all = RenameRule::from_rename_all_str(&value.value()).ok();
+                    } else {
+                        Self::skip_meta_value(&meta)?;
+                    }
+                    Ok(())
+                });
+
+                if parsed.is_ok() {
+                    if rename_all.is_some() {
+                        result.rename_all = rename_all;
+                    }
+                } else if let Ok(tokens) = syn::parse2::<syn::MetaList>(attr.meta.to_token_stream())
+                {
+                    // Unusual attribute syntax: fall back to scanning the token string
                     let tokens_str = tokens.tokens.to_string();
 
                     // Parse rename_all = "convention"
@@ -40,7 +59,31 @@ impl SerdeParser {
 
         for attr in attrs {
             if attr.path().is_ident("serde") {
-                if let Ok(tokens) = syn::parse2::<syn::MetaList>(attr.meta.to_token_stream()) {
+                let mut skip = false;
+                let mut rename = None;
+                let parsed = attr.parse_nested_meta(|meta| {
+                    if meta.path.is_ident("skip") {
+                        skip = true;
+                    } else if meta.path.is_ident("rename") && meta.input.peek(syn::Token![=]) {
+                        // LitStr::value() is the unescaped text serde puts on the wire
+                        let value: syn::LitStr = meta.value()?.parse()?;
+                        rename = Some(value.value());
+                    } else {
+                        Self::skip_meta_value(&meta)?;
+                    }
+                    Ok(())
+                });
+
+                if parsed.is_ok() {
+                    if skip {
+                        result.skip = true;
+                    }
+                    if rename.is_some() {
+                        result.rename = rename;
+                    }
+                } else if let Ok(tokens) = syn::parse2::<syn::MetaList>(attr.meta.to_token_stream())
+                {
+                    // Unusual attribute syntax: fall back to scanning the token string
                     let tokens_str = tokens.tokens.to_string();
 
                     // Check for skip flag
@@ -57,6 +100,18 @@ impl SerdeParser {
         }
 
         result
+    }
+
+    /// Consume the `= value` or `(...)` part of a serde key this parser does not interpret
+    fn skip_meta_value(meta: &syn::meta::ParseNestedMeta) -> syn::Result<()> {
+        if meta.input.peek(syn::Token![=]) {
+            let _: syn::Expr = meta.value()?.parse()?;
+        } else if meta.input.peek(syn::token::Paren) {
+            let content;
+            syn::parenthesized!(content in meta.input);
+            let _: proc_macro2::TokenStream = content.parse()?;
+        }
+        Ok(())
     }
 
     /// Parse rename_all value like "camelCase", "snake_case", "PascalCase", etc. to
